@@ -72,6 +72,18 @@ func segMarshal(arg any) (data []byte, err error, pan any) {
 	return
 }
 
+// refUnmarshal is the reference decoder; a panic inside protobuf-go v1.26.0
+// (it has one for some malformed map entries: "cannot convert nil to map
+// key") counts as a rejection.
+func refUnmarshal(data []byte, dyn *dynamicpb.Message) (err error) {
+	defer func() {
+		if r := recover(); r != nil {
+			err = fmt.Errorf("reference panicked: %v", r)
+		}
+	}()
+	return gproto.Unmarshal(data, dyn)
+}
+
 func segUnmarshal(data []byte, ptr any) (err error, pan any) {
 	defer func() {
 		if r := recover(); r != nil {
@@ -105,7 +117,7 @@ func checkEncodeOf(b *ps.Built, arg any, v *ps.Val, idx int) *fail {
 		return &fail{Failure: evid.Failure{Oracle: "seg.Marshal succeeds on a supported type", Observed: "error: " + err.Error(), Expected: "nil error", Class: "marshal-error"}, Dir: "encode", Item: idx, Wire: -1}
 	}
 	dyn := dynamicpb.NewMessage(b.Desc[0])
-	if err := gproto.Unmarshal(data, dyn); err != nil {
+	if err := refUnmarshal(data, dyn); err != nil {
 		return &fail{Failure: evid.Failure{Oracle: "reference decodes seg.Marshal(v)", Observed: fmt.Sprintf("reference error %v on bytes %s", err, evid.Hex(clip(data))), Expected: "no error", Class: "ref-rejects"},
 			Dir: "encode", Item: idx, Wire: -1, Bytes: data}
 	}
@@ -132,7 +144,7 @@ func clip(b []byte) []byte {
 // the decode direction: only such re-encodings are in the domain).
 func legal(b *ps.Built, v *ps.Val, wire []byte) bool {
 	dyn := dynamicpb.NewMessage(b.Desc[0])
-	if err := gproto.Unmarshal(wire, dyn); err != nil {
+	if err := refUnmarshal(wire, dyn); err != nil {
 		return false
 	}
 	if b.UnknownPath(0, dyn) != "" {
